@@ -21,6 +21,26 @@ def stream_event(kind, key, nonce, rounds, m, ctr0=0, op='enc', prehash=None):
     except Exception as ex: e['raised'] = type(ex).__name__
     return e
 
+def long_stream_events(kind, key, nonce, rounds, m, seg=1024, op='enc'):
+    """ONE real call on a long message, recorded as independent segment events: keystream block b depends only on (key, nonce, b), so the
+    segment that starts at byte 64*c is the message segment xor the keystream from block c (spec law checked in ST_Salsa / ST_Chacha);
+    TLC judges the segments in parallel.  The last segment takes everything that is left of the result (a longer result shows there)."""
+    from crysp.bits import Bits
+    from crysp.salsa20 import Salsa20
+    from crysp.chacha import Chacha
+    base = dict(op=kind, key=B(key), nonce=B(nonce), rounds=rounds, raised='', dir=op, long=len(m))
+    try:
+        o = (Salsa20 if kind == 'salsa' else Chacha)(Bits(key, bitorder=1), rounds)
+        r = getattr(o, op)(Bits(nonce, bitorder=1), m)
+    except Exception as ex:
+        return [dict(base, ctr0=limbs(0, 4), m=B(m[:seg]), obs=[], raised=type(ex).__name__)]
+    if type(r) is not bytes: return [dict(base, ctr0=limbs(0, 4), m=B(m[:seg]), obs=[-1])]
+    out = []
+    for a in range(0, max(len(m), 1), seg):
+        last = a + seg >= len(m)
+        out.append(dict(base, ctr0=limbs(a // 64, 4), m=B(m[a:a + seg]), obs=B(r[a:] if last else r[a:a + seg]), seg_start=a))
+    return out
+
 def stream_history(kind, key, rounds, rb):
     """ONE cipher object: the caller re-uses one nonce object and edits it in place between calls; a nonce of a wrong size is refused in between
     and the same integer is then passed as a proper 64-bit nonce.  Every recorded call is still enc(v, M) = M xor keystream(key, value of v at call time)."""
@@ -87,7 +107,12 @@ def run(ctx):
         try: e['obs'] = B(Salsa20().hash(x))
         except Exception as ex: e['raised'] = type(ex).__name__
         ev.append(e); ctx.mark(('hash', cls))
-    traces = [dict(ev=ev[i:i + 6]) for i in range(0, len(ev), 6)]
+    # long messages: one real call, judged segment by segment (1 KiB = 16 blocks each); 16 KiB is where the low byte of the block counter wraps
+    longev = []
+    for kind in ('salsa', 'chacha'):
+        for klen, rounds, n in (((32, 8, 65536 + 100), (16, 20, 16384 + 64 + 5), (32, 12, 4096), (32, 20, 5000)) + (((32, 8, (1 << 20) + 7), (16, 20, 70000)) if big else ())):
+            longev += long_stream_events(kind, rb(klen), rb(8), rounds, rb(n), op='enc' if n % 2 else 'dec'); ctx.mark((kind, 'long', n, rounds))
+    traces = [dict(ev=ev[i:i + 6]) for i in range(0, len(ev), 6)] + [dict(ev=longev[i:i + 2]) for i in range(0, len(longev), 2)]
     # RC4: one object, a sequence of pieces
     from crysp.rc4 import RC4
     def rc4_trace(key, pieces):
@@ -109,13 +134,30 @@ def run(ctx):
             traces.append(rc4_trace(key, [rb(c) for c in cuts])); ctx.mark(('rc4', kl, str(cuts)))
         traces.append(rc4_trace(key, [b'']))                                   # the empty message
         traces.append(rc4_trace(key, [rb(1), rb(300), rb(2), rb(150)]))          # a deviation of the permutation may show only dozens of bytes after the cut
+    # one call on several KiB (the index i wraps every 256 bytes), judged in 512-byte segments along the continuous stream, then a second call
+    def rc4_long(key, n1, n2):
+        t = [dict(op='rc4_new', key=B(key), raised='')]
+        o = RC4(key)
+        for j, n in enumerate((n1, n2)):
+            m = rb(n)
+            try: r = o.enc(m) if j == 0 else o.dec(m); exc = ''
+            except Exception as ex: r = b''; exc = type(ex).__name__
+            if exc or type(r) is not bytes:
+                t.append(dict(op='rc4_xor', m=B(m[:512]), raised=exc, obs=[-1], long=n)); break
+            for a in range(0, n, 512):
+                last = a + 512 >= n
+                t.append(dict(op='rc4_xor', m=B(m[a:a + 512]), raised='', obs=B(r[a:] if last else r[a:a + 512]), long=n))
+        return dict(ev=t)
+    for kl, n1, n2 in (((16, 8192 + 3, 700), (5, 4096, 257)) + (((256, 65536 + 1, 1000),) if big else ())):
+        try: traces.append(rc4_long(rb(kl), n1, n2)); ctx.mark(('rc4 long', kl, n1, n2))
+        except Exception as ex: ctx.violation('stream.rc4_new', 'raises:' + type(ex).__name__, dict(op='rc4_new', keylen=kl), dict(key_len=kl))
     # all compositions of 6 bytes into <= 4 pieces (the MC model's splits, on real data)
     import itertools
     key = rb(7)
     for parts in itertools.product(range(0, 4), repeat=4):
         if sum(parts) == 6: traces.append(rc4_trace(key, [rb(c) for c in parts])); ctx.mark(('rc4split', str(parts)))
     for kl in (0, 257, 300): traces.append(rc4_trace(bytes(kl), []))           # key lengths outside 1..256 are rejected
-    ctx.exhaustive_subspaces.append('RC4 object: every composition of 6 bytes into 4 pieces of 0..3 bytes; Salsa20/ChaCha: both key sizes x round counts x |M| in {0,1,63,64,65,127,128,129,191,200}')
+    ctx.exhaustive_subspaces.append('RC4 object: every composition of 6 bytes into 4 pieces of 0..3 bytes; Salsa20/ChaCha: both key sizes x round counts x |M| in {0,1,63,64,65,127,128,129,191,200}; single calls on 4 KiB .. 64 KiB (thorough: 1 MiB) judged in segments')
     ctx.evaluations = sum(len(t['ev']) for t in traces)
     ctx.sample(traces[0]['ev'][0]); ctx.sample(traces[-8]['ev'])
     bad = ctx.validate('trace/Trace_Stream.tla', traces, lambda t: len(t['ev']), what='Trace_Stream')
